@@ -41,6 +41,12 @@ class Spec(core.PropSpec):
         except CL.Rejected:
             out.rejected = True
             return out
+        except CL.LoudFailure:
+            # the injected dependency failure reached the caller on every path: nothing was handed out
+            out.count("injected_failure_reached_the_caller")
+            out.tags.append("loud-failure")
+            out.nontrivial = W >= 2
+            return out
         except Exception as e:
             out.violate("C13:raises:" + type(e).__name__, site, f"{type(e).__name__}: {e}")
             return out
